@@ -1,4 +1,4 @@
-import sys; sys.path.insert(0,"/verif")
+import sys, os; sys.path.insert(0, os.path.dirname(os.path.dirname(os.path.abspath(__file__))))
 from engine import spec, verify, run
 run.load_contracts()
 import os, importlib.util
